@@ -105,9 +105,19 @@ def tags_of(ast: list) -> set[str]:
                     last = body[-1]
                     if last[0] in ("and", "or"):
                         ends = {b[-1][1] if b and b[-1][0] == "ev" else None for b in last[1]}
+                        followed = i + 1 < len(seq) and seq[i + 1][0] == "ev"
                         # all branches of the closing fork end in one and the same event type:
-                        # a different situation for the learner (counts > 1), see same_end()
-                        tags.add("E1-same-end" if len(ends) == 1 and None not in ends else "E1")
+                        # a different situation for the learner (counts > 1), see same_end().
+                        # The recorded finding (unterminated fork) concerns loops that are NOT
+                        # followed by an event in their sequence (last statement, or only a
+                        # detach behind them): 162/177 such runs fail on the unchanged tree,
+                        # 0/1122 of the loops followed by an event do.
+                        if not followed:
+                            tags.add("E1")
+                        elif len(ends) == 1 and None not in ends:
+                            tags.add("E1-same-end")
+                        else:
+                            tags.add("E1-followed")
                     elif last[0] == "loop" and _contains(last[1], ("break",)):
                         tags.add("E2")
                     elif last[0] == "xor":
@@ -147,7 +157,8 @@ OUTSIDE_F = {"adjacent-blocks", "sequence-starts-with-block", "more-than-3-branc
              "multi-event-break-in-nested-loop", "break-outside-xor", "detach-on-all-branches",
              "several-breaks-in-nested-loop", "break-outside-loop", "repeated-event-name",
              "depth>3"}
-F_EDGE_TAGS = {"E1", "E2", "E3", "multi-start", "starts-with-block", "multi-event-break"}
+F_EDGE_TAGS = {"E1", "E1-followed", "E2", "E3", "multi-start", "starts-with-block",
+               "multi-event-break"}
 
 
 def stratum_of(tags: set[str]) -> str:
@@ -287,7 +298,7 @@ def random_liberal(rng: random.Random, max_events: int = 16) -> tuple[list, str]
             t = tags_of(ast)
             if t & OUTSIDE_F:
                 continue
-            hit = sorted(t & {"E1", "E2", "E3"})
+            hit = sorted(t & {"E1", "E1-followed", "E2", "E3"})
             if hit:
                 return ast, hit[0]
     finally:
@@ -322,13 +333,14 @@ def random_edge(rng: random.Random, kind: str | None = None) -> tuple[list, str]
             else:
                 tail = ("xor", [[nm()], [nm(), (rng.choice(["and", "xor", "or"]), [[nm()], [nm()]])]])
             body = [nm()] + ([nm()] if rng.random() < 0.5 else []) + [tail]
-            ast = pre + [("loop", body), nm()]
+            # E1: the loop is the last statement of its sequence half of the time
+            ast = pre + [("loop", body)] + ([nm()] if kind != "E1" or rng.random() < 0.5 else [])
             if rng.random() < 0.3:
                 ast = [nm(), ("and", [[nm()], ast[:]]) , nm()]
         t = tags_of(ast)
         if t & OUTSIDE_F:
             continue
-        if kind in t:
+        if kind in t or (kind == "E1" and "E1-followed" in t):
             return ast, kind
     raise RuntimeError("could not generate edge definition " + kind)
 
@@ -452,6 +464,40 @@ def break_xor_start_block_family() -> list[list]:
                     brk = [[nm(), ("break",)] for _ in range(nbreak)]
                     body = [head, ("xor", brk + [cont])] + ([nm()] if tail_in_body else [])
                     out.append(pre + [("loop", body), nm()])
+    return out
+
+
+def loop_start_block_family() -> list[list]:
+    """Deterministic family (beyond F): a loop whose body starts directly with a fork."""
+    out = []
+    for kind, nb in [("xor", 2), ("xor", 3), ("and", 2), ("or", 2), ("and", 3), ("or", 3)]:
+        for tail in (True, False):
+            for pre2 in (False, True):
+                if not tail and kind in ("and", "or"):
+                    continue                      # body would end in the fork as well
+                nm = _Names()
+                pre = [nm()] + ([nm()] if pre2 else [])
+                blk = (kind, [[nm()] + ([nm()] if i == 0 else []) for i in range(nb)])
+                out.append(pre + [("loop", [blk] + ([nm()] if tail else [])), nm()])
+    return out
+
+
+def loop_end_nested_fork_family() -> list[list]:
+    """Deterministic family: a loop, followed by an event, whose body ends in an AND/OR fork
+    one branch of which ends in (or holds) another fork."""
+    out = []
+    for outer in ("and", "or"):
+        for inner in ("and", "or", "xor"):
+            if inner == outer:
+                continue
+            for inner_tail in (False, True):
+                for nb in (2, 3):
+                    nm = _Names()
+                    pre = [nm()]
+                    ib = (inner, [[nm()], [nm()]])
+                    br = [[nm(), ib] + ([nm()] if inner_tail else [])] + \
+                        [[nm()] for _ in range(nb - 1)]
+                    out.append(pre + [("loop", [nm(), (outer, br)]), nm()])
     return out
 
 
